@@ -223,8 +223,60 @@ func cmdC13API(args []string) int {
 			}
 		}
 	}
+	// ---- pairwise capture histories: one capture search followed by another on the SAME value, for every
+	// ordered pair of a small family of haystacks.  Scratch that a capture search leaves behind (slot
+	// buffers, per-thread capture rows) shows in the NEXT capture search, typically as a group that the
+	// second match does not set but that keeps the first search's offsets.  Patterns: start-anchored and
+	// un-anchored ones with groups that may not participate (not one-pass where possible), plus every 6th
+	// generated pattern that has a capture group.
+	pairPats := []string{`^(a+)(b+)?a*`, `^(\w+)(?:\s+(\w+))?\s*$`, `^(a|ab)(c|bcd)?(d*)`, `^(x+)(y+)?(x+)?x*`, `^(?:(a)|b)*(c)?[ab]*`,
+		`(a+)(b+)?a*`, `(\w+)(?:-(\d+))?(?:\.(\w+))?`, `^\s*(\d+)?(?:px|(em))?\s*(\w*)`, `^(.*?)(,(\d+))?$`, `^(\pL+)(\d+)?\pL*`}
+	for i := 0; i < npat; i += 6 {
+		pat, _ := pg.next(i)
+		if re, err := syntax.Parse(pat, syntax.Perl); err == nil && re.MaxCap() >= 1 && len(pairPats) < 10+npat/12 {
+			pairPats = append(pairPats, pat)
+		}
+	}
+	for pi, pat := range pairPats {
+		ast, err := syntax.Parse(pat, syntax.Perl)
+		if err != nil {
+			continue
+		}
+		aged, err := coregex.Compile(pat)
+		if err != nil {
+			continue
+		}
+		st.hist("pairwise-pattern")
+		hg := newHayGen(r.fork(uint64(pi)+88000), ast)
+		var hs [][]byte
+		for k := 0; k < 8; k++ {
+			hs = append(hs, hg.next([]int{1, 1, 1, 10, 4, 8, 1, 2}[k]))
+		}
+		// a member continued by one more byte / cut by one byte: the last stepped thread then has its
+		// groups closed while the match itself skips them
+		m := sampleMatch(r, ast, 0)
+		hs = append(hs, concatBytes(m, m[:min(1, len(m))]), m[:max(0, len(m)-1)])
+		for a, h1 := range hs {
+			for b, h2 := range hs {
+				observe(aged, "FindSubmatchIndex", h1)
+				for _, api := range []string{"FindSubmatchIndex", "FindAllSubmatchIndex3"} {
+					got := observe(aged, api, h2)
+					fresh, _ := coregex.Compile(pat)
+					want := observe(fresh, api, h2)
+					st.Evaluations++
+					distinct.add(pat + "\x00pair\x00" + api + "\x00" + string(h1) + "\x00" + string(h2))
+					if got != want {
+						st.violate(violation{Kind: "aged-vs-fresh", Case: 200000 + pi*1000 + a*20 + b,
+							Detail: map[string]any{"pattern": pat, "config": "default", "history": fmt.Sprintf("FindSubmatchIndex(%q), then %s", short(string(h1), 80), api),
+								"api": api, "haystack": string(h2), "expected_fresh": want, "got_aged": got},
+							Sig: fmt.Sprintf("aged-vs-fresh(pair) %s pat=%q h1=%x h2=%x", api, pat, h1, h2), Expected: want, Got: got})
+					}
+				}
+			}
+		}
+	}
 	st.Distinct = len(distinct)
-	st.Rule = "per pattern one Regex value (default config or tiny DFA limits, sometimes Longest) receives a history of 8-60 calls over 11 APIs (long-then-short haystacks, repeats, runtime.GC in between); every call's result is compared with the same call on a freshly compiled value; plus an exhaustion phase: state-explosive patterns under the DEFAULT configuration receive 12 (thorough 48) calls on 64 KiB of noise, which uses up the lazy DFA's cache-clear budget, then every API on short probes vs a fresh value; distinct = distinct (pattern, api, haystack)"
+	st.Rule = "per pattern one Regex value (default config or tiny DFA limits, sometimes Longest) receives a history of 8-60 calls over 11 APIs (long-then-short haystacks, repeats, runtime.GC in between); every call's result is compared with the same call on a freshly compiled value; plus an exhaustion phase: state-explosive patterns under the DEFAULT configuration receive 12 (thorough 48) calls on 64 KiB of noise, which uses up the lazy DFA's cache-clear budget, then every API on short probes vs a fresh value; plus pairwise capture histories: for curated and generated patterns with groups that may not participate, FindSubmatchIndex(h1) then FindSubmatchIndex / FindAllSubmatchIndex(h2) on the same value for every ordered pair of ~10 haystacks vs a fresh value; distinct = distinct (pattern, api, haystack)"
 	st.write(*statsPath)
 	return 0
 }
